@@ -32,7 +32,9 @@ using GasPvt = Opm::GasPvtMultiplexer<double>;
 using WaterPvt = Opm::WaterPvtMultiplexer<double>;
 
 // function codes (shared by the three phases where they make sense)
-enum Fn { INVB = 0, MU = 1, SAT_INVB = 2, SAT_MU = 3, SAT_R = 4, PSAT = 5 };
+enum Fn { INVB = 0, MU = 1, SAT_INVB = 2, SAT_MU = 3, SAT_R = 4, PSAT = 5,
+          // compositions of the above: r := saturated ratio at p, then the undersaturated function at (p, r)
+          CHAIN_INVB = 6, CHAIN_MU = 7, CHAIN_PSAT = 8 };
 
 template <class T>
 T oil_eval(const OilPvt& pvt, int fn, unsigned reg, const T& temp, const T& p, const T& r)
@@ -83,7 +85,7 @@ struct Pvts {
 };
 
 template <class T>
-T dispatch(const Pvts& s, char ph, int fn, unsigned reg, const T& temp, const T& p, const T& r)
+T dispatch1(const Pvts& s, char ph, int fn, unsigned reg, const T& temp, const T& p, const T& r)
 {
     switch (ph) {
     case 'o': return oil_eval<T>(s.oil, fn, reg, temp, p, r);
@@ -91,6 +93,17 @@ T dispatch(const Pvts& s, char ph, int fn, unsigned reg, const T& temp, const T&
     case 'w': return water_eval<T>(s.water, fn, reg, temp, p, r);
     }
     throw BadRequest("bad phase");
+}
+
+template <class T>
+T dispatch(const Pvts& s, char ph, int fn, unsigned reg, const T& temp, const T& p, const T& r)
+{
+    if (fn >= CHAIN_INVB) {
+        const T rsat = dispatch1<T>(s, ph, SAT_R, reg, temp, p, r);
+        const int inner = fn == CHAIN_INVB ? INVB : fn == CHAIN_MU ? MU : PSAT;
+        return dispatch1<T>(s, ph, inner, reg, temp, p, rsat);
+    }
+    return dispatch1<T>(s, ph, fn, reg, temp, p, r);
 }
 
 const char* oil_approach(Opm::OilPvtApproach a)
@@ -123,9 +136,9 @@ const char* water_approach(Opm::WaterPvtApproach a)
 
 } // namespace
 
-// {cmd:pvt_eval, deck:"...", temp: T[K], queries:[[ph, fn, region, p, r], ...]}   (p, r: SI, hex or decimal)
-// -> {approach:{oil,gas,water}, nreg:{...}, refdens:[[o,g,w]...],
-//     res:[[v_double, v_ad, d/dp, d/dr, d/dT] | {"exc":..., "what":...}, ...]}
+// {cmd:pvt_eval, deck:"...", temp: T[K], queries:[[ph, fn, region, p, r, hp, hr], ...]}   (SI, hex or decimal)
+// -> {approach:{oil,gas,water}, nreg:{...},
+//     res:[[v_double, v_ad, d/dp, d/dr, d/dT, f(p-hp), f(p+hp), f(r-hr), f(r+hr)] | {"exc":..., "what":...}, ...]}
 // AD variables: p = variable 0, r = variable 1, T = variable 2.
 PROBE_CMD(pvt_eval) {
     const std::string text = jstr(req, "deck");
@@ -162,12 +175,14 @@ PROBE_CMD(pvt_eval) {
     out.key("res").arr();
     jforeach(jget(req, "queries"), [&](const cJSON* q) {
         const int n = cJSON_GetArraySize(q);
-        if (n != 5) throw BadRequest("query must have 5 entries");
+        if (n != 7) throw BadRequest("query must have 7 entries");
         const std::string ph = jstr(cJSON_GetArrayItem(q, 0));
         const int fn = (int)jint(cJSON_GetArrayItem(q, 1));
         const unsigned reg = (unsigned)jint(cJSON_GetArrayItem(q, 2));
         const double p = jdouble(cJSON_GetArrayItem(q, 3));
         const double r = jdouble(cJSON_GetArrayItem(q, 4));
+        const double hp = jdouble(cJSON_GetArrayItem(q, 5));
+        const double hr = jdouble(cJSON_GetArrayItem(q, 6));
         if (ph.size() != 1) throw BadRequest("bad phase");
         // an exception of one evaluation is an observation of that evaluation
         try {
@@ -176,7 +191,14 @@ PROBE_CMD(pvt_eval) {
             const Eval re = Eval::createVariable(r, 1);
             const Eval te = Eval::createVariable(temp, 2);
             const Eval va = dispatch<Eval>(s, ph[0], fn, reg, te, pe, re);
-            out.arr().d(vd).d(va.value()).d(va.derivative(0)).d(va.derivative(1)).d(va.derivative(2)).end_arr();
+            out.arr().d(vd).d(va.value()).d(va.derivative(0)).d(va.derivative(1)).d(va.derivative(2));
+            // neighbours for difference quotients (double arguments); step 0 = not requested
+            const double nan = std::nan("");
+            out.d(hp != 0.0 ? dispatch<double>(s, ph[0], fn, reg, temp, p - hp, r) : nan);
+            out.d(hp != 0.0 ? dispatch<double>(s, ph[0], fn, reg, temp, p + hp, r) : nan);
+            out.d(hr != 0.0 ? dispatch<double>(s, ph[0], fn, reg, temp, p, r - hr) : nan);
+            out.d(hr != 0.0 ? dispatch<double>(s, ph[0], fn, reg, temp, p, r + hr) : nan);
+            out.end_arr();
         } catch (const BadRequest&) {
             throw;
         } catch (const std::exception& e) {
